@@ -234,11 +234,13 @@ def run(ctx):
                 break
         ctx.case("gmrf-history", {"gmrf": f"{pd}D", "order": order, "bc": bc, "n": n, "ops": ops})
         if reads:
-            hist_jobs.append((key, "gmrfhist %s %s %s %s" % (Pmodel[(pd, order, bc, n)], q(prec0), qv(mean0), "/".join(script)), reads))
+            hist_jobs.append((key, "gmrfhist %s %s %s %s" % (Pmodel[(pd, order, bc, n)], q(prec0), qv(mean0), "@".join(script)), reads))
     houts = ctx.lean.drive([j[1] for j in hist_jobs])
     for (key, _, reads), out in zip(hist_jobs, houts):
-        if out in ("bad-op", "_"):
-            ctx.note(f"model refused a GMRF history: {out}"); continue
+        if out == "bad-op":
+            raise RuntimeError("C20 driver could not parse a gmrfhist line (machinery error)")
+        if out == "_":
+            continue
         vals = [t.strip() for t in out.split("|")]
         if len(vals) != len(reads):
             ctx.disagree(key, reads[-1][1], len(vals), len(reads), "number of reads differs"); continue
@@ -313,6 +315,10 @@ def run(ctx):
                              f"{fam}.logpdf of a batch of columns is not the documented density of each column")
 
     generic_classes(ctx, cuqi, Pmodel, thorough)
+    # session-3 extension: constructor / geometry glue, exact /dx scaling, logpdf forms and gradients (Model/C20_eval.lean)
+    # and sparse_cholesky with the factor / log-determinant GMRF keeps (Model/C20_chol.lean)
+    from harness.props.c20_eval import run_ext
+    run_ext(ctx, cuqi, thorough)
 
 def generic_classes(ctx, cuqi, Pmodel, thorough):
     """Recurrent miss classes (tools/generic_classes.txt) applied to what C20 states: the same NUMBERS handed over with another
